@@ -21,8 +21,7 @@ pub uninterp spec fn schnorr_valid(s: Signature, d: Digest, k: XOnlyPublicKey) -
 pub uninterp spec fn xonly(k: PublicKey) -> XOnlyPublicKey;
 pub uninterp spec fn digest_of(h: TaggedHash) -> Digest;
 pub uninterp spec fn tagged_hash_of(tag: Seq<char>, bytes: Seq<u8>) -> TaggedHash;
-impl PublicKey { pub fn into(self) -> (r: XOnlyPublicKey) ensures r == xonly(self) { proof { admit_xonly(self); } XOnlyPublicKey(0) } }
-#[verifier::external_body] proof fn admit_xonly(k: PublicKey) ensures XOnlyPublicKey(0) == xonly(k) {}
+impl PublicKey { #[verifier::external_body] pub fn into(self) -> (r: XOnlyPublicKey) ensures r == xonly(self) { unimplemented!() } }
 impl TaggedHash {
     #[verifier::external_body] pub fn as_digest(&self) -> (r: &Digest) ensures *r == digest_of(*self) { unimplemented!() }
     #[verifier::external_body] pub fn from_valid_tlv_stream_bytes(tag: &str, bytes: &Vec<u8>) -> (r: TaggedHash) ensures r == tagged_hash_of(tag@, bytes@) { unimplemented!() }
